@@ -7,6 +7,12 @@ MC   MC_Fields*.cfg: partition / offsets / cut characterisation for every line <
      FF, NBSP, NEL and multi-byte characters whose UTF-8 bytes include 0xA0 / 0x85 / 0x80 (a-grave, a-ogonek, U+4F60,
      U+5800): full menu on every line <= 3 / 4, in-package and through the binary; tokens only on every line
      <= 3 / 4 over 22 symbols (also LF, BS, US, DEL, U+2003, U+3000, zero width space, dagger).
+     Non-ASCII delimiters have a third alphabet {a b SPACE e-acute e-grave box-vertical box-horizontal U+4F60}: the literal
+     delimiters e-acute (one character, 2 bytes), box-vertical (one character, 3 bytes), e-acute+box-vertical (two
+     characters) and the regular expression [e-acute box-vertical]; full menu on every line <= 3 / 4, in-package and through
+     the binary (--delimiter on the command line); partition invariants on every line <= 5 / 6.  ByCharacter /
+     LiteralWhole (FzfFields): a literal delimiter is matched as a whole string of characters, characters sharing bytes
+     of its encoding (e-grave, box-horizontal) are field content.
 E    TLC-exported cases replayed in-package (Tokenize, ParseRange, Transform, splitNth, BuildPattern+MatchItem,
      nthTransformer via the option parser, Item.acceptNth, replacePlaceholder) and through the real binary
      (fzf --filter with --nth / --delimiter / --with-nth, default and streaming path).
@@ -18,14 +24,22 @@ from vlib import replay_cases, record_and_judge, judge, write_ndjson, Infra, log
 LINE_KEYS = ["toks", "hits", "raw", "shown", "acc", "whits", "ph", "phs", "phq", "qph", "qphs"]
 FILES = ["zz_verif_common_test.go", "zz_verif_fields_test.go"]
 BASE_DELIMS = [("awk", ""), ("str", ","), ("str", ", "), ("str", "TAB"), ("re", "[,:]"), ("re", ",+")]
-CLI_DELIMS = BASE_DELIMS + [("awk", "uni")]      # awk:uni = AWK style again, on its own alphabet (MC_Fields.tla AwkU)
-ALL_DELIMS = BASE_DELIMS + [("re", ","), ("re", ", "), ("re", "TAB")]
+# non-ASCII delimiters (MC_Fields.tla U8Delims): ids are symbol names; the first three are literal strings for
+# delimiterRegexp (one character / no meta character), the last is a regular expression
+U8_DELIMS = [("str", "e~"), ("str", "bxv"), ("str", "e~bxv"), ("re", "[e~bxv]")]
+U8_IDS = {d[1] for d in U8_DELIMS}
+CLI_DELIMS = BASE_DELIMS + [("awk", "uni")] + U8_DELIMS    # awk:uni = AWK style again, on its own alphabet (MC_Fields.tla AwkU)
+ALL_DELIMS = BASE_DELIMS + [("re", ","), ("re", ", "), ("re", "TAB")] + U8_DELIMS
+UNIVERSES = ("base", "uni", "u8")
+N_BASE_DELIMS, N_BASE_SYMS, N_U8_SYMS = 9, 7, 8
 J_ALPHABET = ["a", "b", ",", ":", " ", "TAB", "e~", "a", ",", " ", "han", "A~", "c", "1", ";", "-", "/"]
-J_TERMSYMS = ["a", "b", ",", ":", "e~", "han", "A~", "c", "1", ";", "-", "/"]
+J_TERMSYMS = ["a", "b", ",", ":", "e~", "han", "A~", "c", "1", ";", "-", "/", "e`", "bxh", "bxv"]
 # characters that are not AWK blanks although something else takes them for white space (control characters, Unicode
 # white space, UTF-8 sequences with the bytes 0x85 / 0xA0 / 0x80) and wide characters; mixed into the random lines
 J_ODD = ["CR", "VT", "FF", "LF", "NBSP", "NEL", "IDSP", "EMSP", "ZWSP", "BS", "US", "DEL", "a`", "aog", "ni", "hori", "dag"]
 J_SPACES = {" ", "TAB", "CR", "VT", "FF", "LF", "NBSP", "NEL", "IDSP", "EMSP"}      # unicode.IsSpace: never inside a term
+# lines for the non-ASCII delimiters: their characters, the characters sharing lead bytes with them, letters, wide characters
+J_U8 = ["e~", "e`", "bxv", "bxh", "e~", "bxv", "a", "b", "c", " ", "ni", "han", "A~", "a`", "dag", ","]
 
 
 def dkey(d):
@@ -38,6 +52,8 @@ def txt(syms):
 
 def ukey(d):
     """which universe of lines a delimiter's cases are drawn from"""
+    if d["kind"] != "awk" and d["id"] in U8_IDS:
+        return "u8"
     return "uni" if (d["kind"], d["id"]) == ("awk", "uni") else "base"
 
 
@@ -118,7 +134,7 @@ def run(ctx):
     if not quick:
         gt = ctx.tlc("MC_Fields", "Gen_Fields_tok5.cfg", timeout=900, workers=workers, label="gen-tok")
         toks5 = [c for c in gt.json_items("CASE") if len(c["line"]) == 5]
-        if len(toks5) != 9 * 7 ** 5:
+        if len(toks5) != N_BASE_DELIMS * N_BASE_SYMS ** 5 + len(U8_DELIMS) * N_U8_SYMS ** 5:
             raise Infra("token export incomplete: %d" % len(toks5))
     ga = ctx.mc("MC_Fields", "Gen_Fields_awktok3.cfg" if quick else "Gen_Fields_awktok4.cfg", timeout=1500, workers=workers,
                 label="gen-awktok")
@@ -137,7 +153,7 @@ def run(ctx):
 
     # the lines fed to the binary: one universe per alphabet (all delimiters of the base menu share theirs)
     universes, uids, ualpha, e2e_envs = {}, {}, {}, {}
-    for u in ("base", "uni"):
+    for u in UNIVERSES:
         universes[u] = sorted({json.dumps(c["line"]) for c in lines if ukey(c["d"]) == u})
         uids[u] = {l: i for i, l in enumerate(universes[u])}
         ualpha[u] = {x for l in universes[u] for x in json.loads(l)}
@@ -267,7 +283,7 @@ def run(ctx):
     def kf_e2e(c, exp, r):
         return {"site": "e2e", "delimiter": dkey(c["d"]), "with_nth": c["spec"] is not None, "stream": c["stream"]}
 
-    for u in ("base", "uni"):
+    for u in UNIVERSES:
         replay_cases(ctx, h, "TestVerifFieldsE2E", [c for c in e2e if ukey(c["d"]) == u], lambda c: c["exp"], "e2e-" + u,
                      env=e2e_envs[u], describe=desc_e2e, kf=kf_e2e, timeout=1500)
 
@@ -316,7 +332,8 @@ def run(ctx):
                        "line and the --nth restriction changes the outcome (no match, or other offsets): %d; plus "
                        "(line, delimiter, expression) triples selecting a non-empty proper part of the line: %d. All "
                        "generated by TLC from the bounded space (lines <= %d over 7 symbols x 9 delimiters and over 13 "
-                       "symbols [TAB SPACE CR VT FF NBSP NEL a-grave a-ogonek U+4F60 U+5800 a b] x AWK style, x menu; "
+                       "symbols [TAB SPACE CR VT FF NBSP NEL a-grave a-ogonek U+4F60 U+5800 a b] x AWK style, and over 8 "
+                       "symbols [a b SPACE e-acute e-grave box-vertical box-horizontal U+4F60] x 4 non-ASCII delimiters, x menu; "
                        "shaped lines with 0..8 fields x 155 expressions A,B in -5..5)" % (nontrivial, sel_nontrivial, 3 if quick else 4))
     ctx.cov["exhaustive"] = True
     ctx.cov["cases"] = {"line": len(lines), "tok5": len(toks5), "sel": len(sels), "sel_expressions": len(menu["exprs"]),
@@ -328,6 +345,10 @@ def run(ctx):
     ctx.cov["traces_validated_against_impl"] += len(lines) + len(sels) + len(parses) + len(e2e) + len(toks5) + len(awktoks)
     for c in lines:
         if ukey(c["d"]) == "uni" and len(c["toks"]) == 2 and {"hori", "NBSP"} <= set(c["line"]):
+            ctx.sample({"line": txt(c["line"]), "delimiter": dkey(c["d"]), "tokens": [[txt(t["t"]), t["p"]] for t in c["toks"]]})
+            break
+    for c in lines:
+        if dkey(c["d"]) == "str:bxv" and len(c["toks"]) == 2 and {"bxh", "bxv", "ni"} <= set(c["line"]):
             ctx.sample({"line": txt(c["line"]), "delimiter": dkey(c["d"]), "tokens": [[txt(t["t"]), t["p"]] for t in c["toks"]]})
             break
     for c in lines:
@@ -343,8 +364,10 @@ def run(ctx):
                         "kind": r["kind"], "term": txt(r["term"]), "offsets": [r["s"], r["e"]], "pos": r["pos"]})
             break
     ctx.assumptions += [
-        "delimiters are the fixed menu awk / ',' / ', ' / TAB (literal) and ',' ', ' TAB '[,:]' ',+' (regex); other "
-        "regular expressions (empty matches, alternation priorities) are not modelled",
+        "delimiters are the fixed menu awk / ',' / ', ' / TAB / e-acute / box-vertical / e-acute+box-vertical (literal) and "
+        "',' ', ' TAB '[,:]' ',+' '[e-acute box-vertical]' (regex); other regular expressions (empty matches, alternation "
+        "priorities) are not modelled; non-ASCII literal delimiters are bound on these three only (2-byte and 3-byte "
+        "characters of the Basic Multilingual Plane, no combining sequences)",
         "AWK-style blanks are exactly TAB and SPACE; every other character (control characters, Unicode white space, any "
         "multi-byte character) is field content - bound on the characters of spec/FzfChars.tla only",
         "terms are case-sensitive, not normalised, contain no white space; what a term kind means on a text is C01/C02's "
@@ -392,7 +415,17 @@ def rnd_expr(rng):
 def rnd_line(rng, d):
     n = rng.randint(5, 24)
     bias = {"awk": [" ", " ", "TAB"], ",": [",", ","], ", ": [",", " ", ","], "TAB": ["TAB", "TAB"],
-            "[,:]": [",", ":"], ",+": [",", ",", ","]}[d[1] if d[0] != "awk" else "awk"]
+            "[,:]": [",", ":"], ",+": [",", ",", ","], "e~": ["e~", "e~"], "bxv": ["bxv", "bxv"],
+            "e~bxv": ["e~bxv", "e~bxv"], "[e~bxv]": ["e~", "bxv"]}[d[1] if d[0] != "awk" else "awk"]
+    if d[0] != "awk" and d[1] in U8_IDS:
+        pool = J_U8 + bias
+        if rng.random() < 0.3:
+            pool = pool + J_ALPHABET
+        out = []
+        while len(out) < n:
+            x = rng.choice(pool)
+            out += ["e~", "bxv"] if x == "e~bxv" else [x]        # the two-character delimiter as a whole
+        return out
     pool = J_ALPHABET + bias * 2
     r = rng.random()
     if r < 0.5:                  # half of the lines: odd characters mixed in (a third of the symbols)
